@@ -138,6 +138,33 @@ def _case(n, peaks, troughs, rises, decays, mode, tag):
             'rises': None if mode == 'decays_only' else rises, 'decays': None if mode == 'rises_only' else decays}
 
 
+def _long_case(rng):
+    """Slow rhythms at a high sampling rate: hand-placed cyclepoints on arrays of 15 000 - 40 000 samples whose half-cycles
+    are a mix of very short (3 samples) and very long (up to 12 000 samples) ones.  The rational phase model is
+    quadratic in the array length, so these cases are judged by the statement oracle alone (kind long/...)."""
+    n = rng.choice([15000, 24000, 40000])
+    ext = [rng.randint(0, 60)]
+    while True:
+        nxt = ext[-1] + rng.choice([3, 10, 200, 3000, 6500, 6500, 9000, 12000])
+        if nxt > n - 1:
+            break
+        ext.append(nxt)
+    if len(ext) < 2:
+        ext.append(n - 1)
+    first_peak = rng.random() < 0.5
+    peaks, troughs = _kinds(ext, first_peak)
+    mids = [rng.randint(a, b) for a, b in zip(ext, ext[1:])]
+    lead = rng.randint(0, ext[0] - 1) if ext[0] > 0 and rng.random() < 0.5 else None
+    trail = rng.randint(ext[-1] + 1, n - 1) if ext[-1] < n - 1 and rng.random() < 0.5 else None
+    rises, decays = _mid_lists(ext, first_peak, mids, lead, trail)
+    mode = rng.choice(['both', 'none', 'none', 'rises_only', 'decays_only'])
+    c = _case(n, peaks, troughs, rises, decays, 'both' if mode == 'none' else mode, 'long')
+    if mode == 'none':
+        c['rises'] = c['decays'] = None
+    c['kind'] = 'long/' + mode
+    return c
+
+
 def cases(rng, tier):
     out = []
     L, E = MAX_N[tier], ENUM_N[tier]
@@ -169,6 +196,8 @@ def cases(rng, tier):
                     rises, decays = _mid_lists(ext, first_peak, mids, lead, trail)
                     mode = rng.choice(['both', 'both', 'rises_only', 'decays_only'])
                     out.append(_store(rng, _case(n, peaks, troughs, rises, decays, mode, 'mid')))
+    for _ in range(6 if tier == 'quick' else 40):
+        out.append(_store(rng, _long_case(rng)))
     nsig = 70 if tier == 'quick' else 700
     for _ in range(nsig):
         s = gen.signal(rng, max_len=260)
@@ -325,7 +354,7 @@ def _nl(xs):
 
 
 def coq_case(c, o):
-    if 'skip' in o:
+    if 'skip' in o or c['kind'].startswith('long/'):
         return None
     inp = '(%d%%nat, %s, %s, %s, %s)' % (o['n'], _nl(o['peaks']), _nl(o['troughs']),
                                         'None' if o['rises'] is None else '(Some %s)' % _nl(o['rises']),
